@@ -5,7 +5,7 @@
    modules) meeting the explicit hypotheses [wf_ctx] (BinRoundtrip.v), decidable by [wf_ctx_b]. *)
 From Coq Require Import List ZArith NArith.
 From MirV Require Import Base.W64 C11.Ast C11.BinIO C11.BinIOProofs C11.BinGrammarProofs C11.BinRoundtrip C11.BinWfDec
-  C11.BinExamples C11.TempNames C10.TextOut C10.TextProofs.
+  C11.BinExamples C11.TempNames C11.BinWriteSets C10.TextOut C10.TextProofs.
 Import ListNotations.
 Local Open Scope Z_scope.
 
@@ -25,6 +25,23 @@ Theorem bin_string_table_complete : forall ts t e,
   In e (collect ts) /\ nth_error (collect ts) (index_of e (collect ts)) = Some e.
 Proof. exact bin_string_table_complete_full. Qed.
 Print Assumptions bin_string_table_complete.
+
+(* The table of an image holds exactly the strings of the tokens of the module set written, each once:
+   nothing of what the context wrote before (MIR_write_module_with_func builds and destroys the table
+   inside the call), so the header - string count, strings, and with them every index in the body - is a
+   function of the modules written.  The correspondence check compares the bytes of every image
+   (all modules; every module on its own; first write of the context and after other writes) with it. *)
+Theorem bin_string_table_exact : forall ts,
+  (forall e, In e (collect ts) <-> exists t, In t ts /\ entry_of t = Some e) /\ NoDup (collect ts).
+Proof. exact bin_string_table_exact_lemma. Qed.
+Print Assumptions bin_string_table_exact.
+
+(* a table that survived an earlier write (pass 1 starting from [tbl0]) is not the table of a fresh
+   write as soon as it holds one string the current module set does not use *)
+Theorem bin_string_table_stale_differs : forall tbl0 ts e,
+  In e tbl0 -> (forall t, In t ts -> entry_of t <> Some e) -> collect_from tbl0 ts <> collect ts.
+Proof. exact collect_from_stale. Qed.
+Print Assumptions bin_string_table_stale_differs.
 
 (* Reading what the writer wrote recreates the modules up to the normal form [norm_module] (scale of
    an index-less memory operand, size field of a non-block argument: both invisible to either
